@@ -27,6 +27,7 @@ class InterruptableThread(threading.Thread):
         self.daemon = True
         self.result = None
         self.exc_info = (None, None, None)
+        self.terminated = False
 
     def run(self):
         """
@@ -69,6 +70,7 @@ class InterruptableThread(threading.Thread):
 
         """
         self.exc_info = sys.exc_info()
+        self.terminated = True
         self.raise_exception(SystemExit)
 
 
